@@ -84,7 +84,7 @@ func c15Request(c *Ctx) {
 			}
 		}
 	}
-	c.Cases("grid", len(grid)*c.N(1, 6), func(i int, r *rand.Rand) {
+	c.Cases("grid", len(grid)*c.N(2, 12), func(i int, r *rand.Rand) {
 		p := grid[i%len(grid)]
 		if i >= len(grid) { // perturb sizes around the grid point in further rounds
 			p.size += int64(r.IntN(5) - 2)
@@ -217,7 +217,7 @@ func c15Response(c *Ctx) {
 			grid = append(grid, c15RespPt{mem, max, sz, 333, 200, "HEAD", ""})
 		}
 	}
-	c.Cases("grid", len(grid)*c.N(1, 4), func(i int, r *rand.Rand) {
+	c.Cases("grid", len(grid)*c.N(1, 8), func(i int, r *rand.Rand) {
 		p := grid[i%len(grid)]
 		if i >= len(grid) {
 			p.Size += int64(r.IntN(5) - 2)
